@@ -571,7 +571,7 @@ pub fn check(tier: &str) -> i32 {
     let scratch = Scratch::new("c08");
     let exe = crate::explore::self_exe();
     // zones of 3 rows (every multiset), then wide zones (one value at chosen row positions)
-    let widths: Vec<usize> = if tier == "quick" { vec![3, 100] } else { vec![3, 65, 72, 100, 129, 1000] };
+    let widths: Vec<usize> = if tier == "quick" { vec![3, 100] } else { vec![3, 65, 72, 100, 129, 257] };
     let outs = crate::lab::par_map(&widths, crate::lab::threads(), |_, w| {
         std::process::Command::new(&exe).arg("c08child").arg(scratch.dir.join(format!("db{w}"))).arg(tier).env_remove("SNELDB_CONFIG").env("RAYON_NUM_THREADS", "1").env("VERIF_C08_Z", w.to_string()).output()
     });
